@@ -7,7 +7,7 @@ RULE = ("pools of packets / HTTP payloads / database files replayed as histories
         "Scapy packets, on freshly parsed and on one REUSED parsed Packet object, fingerprint_mtu, fingerprint_http on bytes / "
         "bytearray / ReceiveBuffer, impersonate_tcp by label and by signature with extra_hops, impersonate_mtu, uptime; every "
         "fingerprint result is compared with the history-free value the model machine computes; sibling packets differing only "
-        "in syn_mss / timestamp / header length follow each other; non-trivial = history with >= 5 matching results")
+        "in syn_mss / timestamp / header length follow each other; SYN+ACKs come with the mirrored SYN of their flow announcing the peer MSS; the label (text and sys list) reported with each match is checked against the file loaded at that moment (same application label, other sys list in the other file); non-trivial = history with >= 5 matching results")
 ASSUMPTIONS = ["uptime results are excluded (clock-dependent by the property's own exception)"]
 EXHAUSTIVE = {}
 
@@ -19,7 +19,7 @@ def build_file(R, pkts, msgs):
     for sec in ("request", "response"):
         lines.append("[tcp:%s]" % sec)
         for spec, p, ty in pkts:
-            if (ty == 2) != (sec == "request") or R.random() < 0.2:
+            if p.get("mirror") or (ty == 2) != (sec == "request") or R.random() < 0.2:
                 continue
             # a record that agrees with the packet on everything but demands an impossible mss*N window:
             # it forces the (lazily computed, possibly remembered) window multiplier to be evaluated for this packet
@@ -34,7 +34,7 @@ def build_file(R, pkts, msgs):
                 cls = R.choice(["unix", "win", "!"])
                 lines.append("label = %s:%s:Os%d:v" % (R.choice(["s", "s", "g"]), cls, R.randrange(4)))
                 if cls == "!":
-                    lines.append("sys = Linux")
+                    lines.append("sys = " + R.choice(["Linux", "Windows", "@unix,@win", "Linux,FreeBSD"]))    # same label text, other sys list in the other file
                 lines.append("sig = " + G.sig_text(s))
     for sec in ("request", "response"):
         lines.append("[http:%s]" % sec)
@@ -75,6 +75,13 @@ def generate(R, tier):
                 if p["syn_mss"] * k <= 65535:
                     p["win"] = spec["win"] = p["syn_mss"] * k       # divisible by the peer MSS (often by nothing else)
             pkts.append((spec, p, ty))
+            if ty == 0x12 and R.random() < 0.5:
+                # the SYN of the same flow (addresses and ports mirrored) announcing exactly the peer MSS the SYN+ACK's window is a multiple of:
+                # fingerprinting it first must not teach the SYN+ACK's fingerprint anything (syn_mss is an ARGUMENT)
+                f = W.full(spec)
+                mirror = {"v": f["v"], "src": f["dst"], "dst": f["src"], "sport": f["dport"], "dport": f["sport"], "flags": 2, "seq": 5,
+                          "opts": "0204%04x" % p["syn_mss"], "win": 8192, "ttl": 64}
+                pkts.append((mirror, {"mirror": True, "mss": p["syn_mss"], "ver": f["v"], "syn_mss": 0}, 2))
             # sibling with the timestamp option replaced by NOPs (same lengths, same window): differs only in "timestamp present"
             i = spec["opts"].find("080a")
             if i >= 0 and i % 2 == 0 and p["mss"] >= 112 and R.random() < 0.7:
@@ -198,6 +205,9 @@ def impl_init():
     import os
     work = os.path.join(os.path.dirname(os.path.dirname(os.path.dirname(os.path.abspath(__file__)))), "work")
 
+    def lab(l):
+        return [l.dump(), list(getattr(l, "sys", ()))]
+
     def impl(c):
         db = Database()
         scapy = [U.scapy_from_spec(s) for s in c["pkts"]]
@@ -224,7 +234,8 @@ def impl_init():
                         x = shared[j]
                     if o["op"] == "tcp":
                         r = fingerprint_tcp(x, syn_mss=o["syn_mss"], options=Options(database=db, max_dist=o["md"]))
-                        out.append({"tcp": [None if r.match is None else r.match.record.line_number, None if r.match is None else r.match.type.name, r.distance]})
+                        out.append({"tcp": [None if r.match is None else r.match.record.line_number, None if r.match is None else r.match.type.name, r.distance],
+                                    "lab": None if r.match is None else lab(r.match.record.label)})
                     else:
                         r = fingerprint_mtu(x, options=Options(database=db))
                         out.append({"mtu": [r.packet_signature.mtu, None if r.match is None else r.match.line_number]})
@@ -242,7 +253,7 @@ def impl_init():
                             bufs[key] += raw
                     buf = bufs[key]
                     r = fingerprint_http(buf, options=Options(database=db))
-                    out.append({"http": [None if r.match is None else r.match.line_number, bool(r.dishonest)]})
+                    out.append({"http": [None if r.match is None else r.match.line_number, bool(r.dishonest)], "lab": None if r.match is None else lab(r.match.label)})
                 elif o["op"] == "edit":
                     scapy[o["pkt"]].getlayer("TCP").window = o["win"]
                     shared.pop(o["pkt"], None)        # a parsed Packet the caller still holds describes the packet as it WAS
@@ -303,11 +314,35 @@ def nontrivial(c, ir, mr):
 def judge(c, ir, mr):
     if not isinstance(ir, list):
         return {"kind": "history raised", "why": str(ir)}
+    cur = None
     for k, (a, b) in enumerate(zip(ir, mr)):
+        if c["ops"][k]["op"] == "load":
+            cur = c["files"][c["ops"][k]["file"]]
+        if isinstance(a, dict) and "lab" in a:
+            got = a["lab"]
+            a = {x: y for x, y in a.items() if x != "lab"}
+            line = (a.get("tcp") or a.get("http") or [None])[0]
+            if a == b and line is not None and cur is not None:
+                want = label_of(cur, line)
+                if got != want:
+                    return {"kind": "the label reported with a match is not the one the loaded file gives that record (it depends on other loads)",
+                            "why": "op %d %s: record at line %d carries label %s, the file says %s" % (k, c["ops"][k], line, got, want), "judged_by": "C16_history + file text"}
         if a != b:
             return {"kind": "a fingerprint result depends on the call history (differs from the pure function of input, database, options)",
                     "why": "op %d %s: impl %s, history-free model value %s" % (k, c["ops"][k], a, b), "judged_by": "C16_history"}
     return None
+
+
+def label_of(lines, n):
+    """[label text, sys list] in force for the sig at line n (1-based) of a generated file."""
+    i = n - 2
+    while i >= 0 and not lines[i].startswith("label"):
+        i -= 1
+    text = lines[i].split("=", 1)[1].strip()
+    sys = []
+    if i + 1 < len(lines) and lines[i + 1].startswith("sys"):
+        sys = lines[i + 1].split("=", 1)[1].strip().split(",")
+    return [text, sys]
 
 
 def shrink(c):
